@@ -220,9 +220,16 @@ def run(ctx):
                   "a message is consumed without isValidPacket having been evaluated on the current cursor and remaining size")
     # the validator itself is right (shared with C03-R4): a message is "complete" exactly when header and declared payload lie inside the remaining bytes
     from rules import c03
-    for o in c03.run(ctx).obligations:
+    c03res = c03.run(ctx)
+    for o in c03res.obligations:
         if o["rule"] == "C03-R4" and o["key"].startswith("isValidPacket:"):
             res.check(o["ok"], "C04-R4", "complete-message:" + o["key"], o["loc"], o["detail"], o["detail"])
+    c03.rule_message_validator_exact(fb, res, "C04-R4", "complete-message:isValidPacket:")
+    # "a payload whose inner structure is inconsistent with its length is marked invalid": what each payload validator guarantees covers the
+    # header and the inner lengths its class reports (C03-R1, R2a, R2b) — a validator that accepts less misparses instead of marking invalid
+    for o in c03res.obligations:
+        if o["rule"] in ("C03-R1", "C03-R2a", "C03-R2b"):
+            res.check(o["ok"], "C04-R3", "consistent-with-length:" + o["key"], o["loc"], o["detail"], o["detail"])
     # the loop continues as long as a complete (possibly empty) message can remain
     leaf = dec.cfg.branch_leaf(m.loop_block)
     a = facts.atom_of(leaf, True)
